@@ -1,0 +1,52 @@
+// Copyright 2021-2022 Buf Technologies, Inc.
+//
+// Licensed under the Apache License, Version 2.0 (the "License");
+// you may not use this file except in compliance with the License.
+// You may obtain a copy of the License at
+//
+//      http://www.apache.org/licenses/LICENSE-2.0
+//
+// Unless required by applicable law or agreed to in writing, software
+// distributed under the License is distributed on an "AS IS" BASIS,
+// WITHOUT WARRANTIES OR CONDITIONS OF ANY KIND, either express or implied.
+// See the License for the specific language governing permissions and
+// limitations under the License.
+
+//go:build verif
+
+package connect
+
+import (
+	"errors"
+	"net/http"
+	"time"
+)
+
+// Thin exported wrappers for the verification harness (build tag verif).
+// They reference only identifiers that the in-package tests already pin.
+
+var verifPool = newBufferPool()
+
+// VerifGRPCPercentEncode exposes grpcPercentEncode.
+func VerifGRPCPercentEncode(msg string) string { return grpcPercentEncode(verifPool, msg) }
+
+// VerifGRPCPercentDecode exposes grpcPercentDecode.
+func VerifGRPCPercentDecode(encoded string) string { return grpcPercentDecode(verifPool, encoded) }
+
+// VerifGRPCEncodeTimeout exposes grpcEncodeTimeout.
+func VerifGRPCEncodeTimeout(timeout time.Duration) (string, error) {
+	return grpcEncodeTimeout(timeout)
+}
+
+// VerifGRPCParseTimeout exposes grpcParseTimeout; noTimeout reports whether
+// the error is (or wraps) errNoTimeout.
+func VerifGRPCParseTimeout(timeout string) (d time.Duration, noTimeout bool, err error) {
+	d, err = grpcParseTimeout(timeout)
+	return d, err != nil && errors.Is(err, errNoTimeout), err
+}
+
+// VerifExtractProtoPath exposes extractProtoPath.
+func VerifExtractProtoPath(url string) string { return extractProtoPath(url) }
+
+// VerifMergeHeaders exposes mergeHeaders.
+func VerifMergeHeaders(into, from http.Header) { mergeHeaders(into, from) }
